@@ -1350,6 +1350,20 @@ CHECK_REPLAY_WINDOW:
  */
         if (ssl->hsState == SSL_HS_FINISHED)
         {
+            /* One ChangeCipherSpec per handshake: the message that has to
+               follow it is Finished. (A second one used to activate the
+               read cipher again and restart the sequence numbers.) DTLS
+               deals with retransmitted flights through the epoch. */
+            if (!ACTV_VER(ssl, v_dtls_any))
+            {
+                if (ssl->flags & SSL_FLAGS_READ_CCS)
+                {
+                    ssl->err = SSL_ALERT_UNEXPECTED_MESSAGE;
+                    psTraceErrr("Second ChangeCipherSpec before Finished\n");
+                    goto encodeResponse;
+                }
+                ssl->flags |= SSL_FLAGS_READ_CCS;
+            }
             if (sslActivateReadCipher(ssl) < 0)
             {
                 ssl->err = SSL_ALERT_INTERNAL_ERROR;
@@ -1445,6 +1459,11 @@ CHECK_REPLAY_WINDOW:
             psTraceIntInfo("Invalid CipherSpec order: %d\n", ssl->hsState);
             goto encodeResponse;
 #endif
+        }
+        if (!ACTV_VER(ssl, v_dtls_any))
+        {
+            /* also when the ticket-in-limbo paths above activated it */
+            ssl->flags |= SSL_FLAGS_READ_CCS;
         }
         ssl->decState = SSL_HS_CCC;
         *remaining = *len - (c - origbuf);
